@@ -253,6 +253,8 @@ def run(ch, idx, tier):
         t = ref.t
         N = len(t)
         ref_arr = result_arrays(ref)
+        if any(".comp[" in k2 and np.isnan(v2).any() for k2, v2 in ref_arr.items()):
+            bump("probe:reference_run_has_nan_compartments")  # NaN == NaN in the comparison below; counted so that it cannot go unnoticed
         bump("model_years_x1000", int(1000 * (t[-1] - t[0])))
         # set_initialization(result) without a year documents "the last time point": the captured state must be the final one
         try:
@@ -261,9 +263,10 @@ def run(ch, idx, tier):
             last = Initialization.from_result(ref, parset=parset, year=None)
             for pop in ref.model.pops:
                 for comp in pop.comps:
-                    got = np.atleast_1d(np.asarray(last.values[(comp.name, pop.name)], dtype=float))
                     raw = getattr(comp, "_vals", None)
                     exp = np.asarray(raw[:, -1] if (raw is not None and hasattr(comp, "flush_link")) else [comp.vals[-1]], dtype=float)
+                    # a compartment absent from the saved state starts empty when the state is applied
+                    got = np.atleast_1d(np.asarray(last.values[(comp.name, pop.name)], dtype=float)) if (comp.name, pop.name) in last.values else np.zeros_like(exp)
                     if got.shape != exp.shape or not np.array_equal(got, exp, equal_nan=True):
                         violations.append({"cls": "saved_state_is_not_the_requested_year", "site": "Initialization.from_result(year=None)", "detail": {"comp": comp.name, "pop": pop.name, "got": got[:4].tolist(), "expected": exp[:4].tolist(), "config": config}})
                         raise StopIteration
